@@ -123,3 +123,93 @@ impl Json {
         format!("{{{}}}", v.join(",\n"))
     }
 }
+
+// ---- the card-token grammar, written out independently of the crate (used by the harness sweeps and by the
+// ---- fuzz targets as the specification side)
+pub fn spec_rank(c: char) -> Option<u32> {
+    Some(match c {
+        'A' | 'a' => 12, 'K' | 'k' => 11, 'Q' | 'q' => 10, 'J' | 'j' => 9, 'T' | 't' | '0' => 8,
+        '9' => 7, '8' => 6, '7' => 5, '6' => 4, '5' => 3, '4' => 2, '3' => 1, '2' => 0,
+        _ => return None,
+    })
+}
+pub fn spec_suit(c: char) -> Option<u32> {
+    Some(match c {
+        'S' | 's' | '♠' | '♤' => 3, 'H' | 'h' | '♥' | '♡' => 2, 'D' | 'd' | '♦' | '♢' => 1, 'C' | 'c' | '♣' | '♧' => 0,
+        _ => return None,
+    })
+}
+pub fn spec_token(t: &str) -> u32 {
+    let mut it = t.chars();
+    match (it.next().and_then(spec_rank), it.next().and_then(spec_suit)) {
+        (Some(r), Some(s)) => layout_word(r, s),
+        _ => 0,
+    }
+}
+/// whitespace-separated tokens, written out by hand over `char::is_whitespace`
+pub fn spec_tokens(t: &str) -> Vec<String> {
+    let mut out = Vec::new();
+    let mut cur = String::new();
+    for c in t.chars() {
+        if c.is_whitespace() {
+            if !cur.is_empty() { out.push(std::mem::take(&mut cur)); }
+        } else {
+            cur.push(c);
+        }
+    }
+    if !cur.is_empty() { out.push(cur); }
+    out
+}
+
+/// The spec-derived oracle (written by the Lean driver from `Spec.strength` only): class -> ordinal.
+pub struct Oracle5 {
+    pub ord: Vec<u16>,       // index: class code
+    pub strength: Vec<u32>,  // index: class code
+    pub classes: usize,
+    pub cat_name: Vec<String>,   // index: ordinal (1..=7462)
+    pub class_name: Vec<String>, // index: ordinal
+}
+pub fn class_code(sorted_desc: [u32; 5], flush: bool) -> usize {
+    let mut e = 0usize;
+    for r in sorted_desc {
+        e = e * 13 + r as usize;
+    }
+    e * 2 + flush as usize
+}
+impl Oracle5 {
+    pub fn load() -> Oracle5 {
+        let path = std::env::var("CKC_ORACLE5").unwrap_or_else(|_| "build/oracle5.txt".into());
+        let text = std::fs::read_to_string(&path).unwrap_or_else(|e| panic!("oracle file {path}: {e}"));
+        let toks: Vec<&str> = text.split_whitespace().collect();
+        assert!(toks.len() % 10 == 0, "oracle format");
+        let mut ord = vec![0u16; 13usize.pow(5) * 2];
+        let mut strength = vec![0u32; 13usize.pow(5) * 2];
+        let mut cat_name = vec![String::new(); 7463];
+        let mut class_name = vec![String::new(); 7463];
+        for t in toks.chunks(10) {
+            let ch: Vec<u64> = t[..8].iter().map(|x| x.parse().expect("oracle number")).collect();
+            let code = class_code([ch[0] as u32, ch[1] as u32, ch[2] as u32, ch[3] as u32, ch[4] as u32], ch[5] == 1);
+            ord[code] = ch[6] as u16;
+            strength[code] = ch[7] as u32;
+            if (ch[6] as usize) < cat_name.len() {
+                cat_name[ch[6] as usize] = t[8].to_string();
+                class_name[ch[6] as usize] = t[9].to_string();
+            }
+        }
+        Oracle5 { ord, strength, classes: toks.len() / 10, cat_name, class_name }
+    }
+    /// deck indices (documented deck order) -> (ordinal, class code)
+    pub fn of_indices(&self, idx: &[usize; 5]) -> (u16, usize) {
+        let mut ranks = [0u32; 5];
+        let mut flush = true;
+        for k in 0..5 {
+            ranks[k] = 12 - (idx[k] as u32 % 13);
+            if idx[k] / 13 != idx[0] / 13 {
+                flush = false;
+            }
+        }
+        ranks.sort_unstable_by(|a, b| b.cmp(a));
+        let code = class_code(ranks, flush);
+        (self.ord[code], code)
+    }
+}
